@@ -346,6 +346,24 @@ def gen_decks(outdir: str) -> list[str]:
     p = os.path.join(outdir, "gen-shapes.pptx")
     prs.save(p)
     out.append(p)
+    # three slides with notes pages whose slide PART NAMES are neither contiguous nor in presentation order (slide7, slide2, slide13):
+    # the first read of prs.slides renames the parts - every relationship that leads to them has to follow
+    prs = pptx.Presentation()
+    for k in range(3):
+        s = prs.slides.add_slide(prs.slide_layouts[1])
+        s.shapes.title.text = "slide %d" % (k + 1)
+        s.notes_slide.notes_text_frame.text = "note %d" % (k + 1)
+    b = io.BytesIO()
+    prs.save(b)
+    members = D.read_zip(io.BytesIO(b.getvalue()))
+    nums = [7, 2, 13]
+    tmp = {"/ppt/slides/slide%d.xml" % (k + 1): "/ppt/slides/slideTMP%d.xml" % (k + 1) for k in range(3)}
+    fin = {"/ppt/slides/slideTMP%d.xml" % (k + 1): "/ppt/slides/slide%d.xml" % nums[k] for k in range(3)}
+    members = F.rename_parts(F.rename_parts(members, tmp), fin)
+    p = os.path.join(outdir, "gen-permuted-names.pptx")
+    with open(p, "wb") as f:
+        D.write_zip(members, f)
+    out.append(p)
     return out
 
 
